@@ -188,6 +188,27 @@ def check_volume(rng):
                 bad.append(("volume-sample-scale", f"samples multiplied by 2**{kexp} ({kind} pool): {v!r} -> {vs!r}"))
                 break
         desc["pow2"] = 4
+        # rigid motions of structurally degenerate pools: the ridge of the regularised branch is isotropic and proportional to
+        # the trace, so rotations / reflections, translations and power-of-two scalings must leave the metric alone.  Judged
+        # only when the rank decision is not a matter of rounding for either cloud.
+        if "+" in kind and d >= 2:
+            ww0 = np.ones(n) / n if w is None else w / w.sum()
+
+            def clearly_deficient(z):
+                zc = z - np.sum(z * ww0[:, None], axis=0)
+                cv = zc.T @ (zc * ww0[:, None])
+                sv = np.linalg.svd(cv, compute_uv=False)
+                return sv[0] > 0 and sv[-1] < 0.2 * d * np.finfo(float).eps * sv[0] and sv[min(1, d - 1)] > 1e-6 * sv[0]
+            Q, _ = np.linalg.qr(rng.standard_normal((d, d)))
+            spread1 = float(np.sqrt(np.trace(np.cov(x.T, aweights=ww0)) / d)) if d > 1 else 1.0
+            bvec = rng.standard_normal(d) * spread1 * 10 ** rng.uniform(-1, 1)
+            y = (x @ Q.T) * 2.0 ** int(rng.integers(-8, 9)) + bvec
+            if clearly_deficient(x) and clearly_deficient(y):
+                with np.errstate(all="ignore"):
+                    vy = float(volume_variation(y, None if w is None else w.copy()))
+                desc["rigid"] = 1
+                if not (abs(vy - v) <= 1e-7 * max(abs(v), 1e-300) + 1e-9):
+                    bad.append(("volume-affine", f"{kind} pool under a rotation/reflection + translation + power-of-two scaling: {v!r} -> {vy!r}"))
     if not (v >= 0) or not np.isfinite(v):
         bad.append(("volume-negative", f"volume_variation={v!r}"))
         return bad, desc, False
@@ -292,6 +313,7 @@ def run():
                 ck.case(dict(volume=vdesc), nontrivial=judged)
                 ck.event("volume_variation case")
                 ck.event("volume_variation under exact power-of-two rescaling of the samples", vdesc.get("pow2", 0))
+                ck.event("degenerate pools under a rigid motion (rank decision robust for both clouds)", vdesc.get("rigid", 0))
                 if "+" in vdesc.get("kind", ""):
                     ck.event("structurally degenerate pools (regularised branch) under power-of-two rescaling")
                 if judged:
